@@ -124,12 +124,15 @@ def build_model(cells, names=None, default_sheet='Sheet1', build_code=True):
 
 SHEETS = ['Sheet1', 'S2', 'Data']
 
-NUMS = [0, 1, 2, 3, 7, -4, 10, 100, 0.5, 2.25, -1.5, 1e-7, 12345.678]
+NUMS = [0, 1, 2, 3, 7, -4, 10, 100, 0.5, 2.25, -1.5, 1e-7, 12345.678,
+        0.30000000000000004, 1 / 3, 1.0, 2.0]
 EXTREME = [1e308, -0.0, 5e-324, 2 ** 70, -1e308]
 TEXTS = ['abc', 'Hello', 'x', 'héllo wörld', '12', '3.5', 'TRUE',
          'a"b', "it's", '日本']
 DATES = [datetime.datetime(2020, 3, 15), datetime.datetime(1999, 12, 31, 12),
-         datetime.datetime(1900, 3, 1)]
+         datetime.datetime(1900, 3, 1),
+         datetime.datetime(2021, 5, 17, 13, 45, 12, 345678),
+         datetime.datetime(2038, 1, 19, 3, 14, 7, 1)]
 
 # templates: {a} {b} {c} single-cell operands, {R} a range, {n} a defined name
 T_SCALAR = [
